@@ -244,3 +244,7 @@ def _r14_5(ctx):
     sp = us.calls_to('re:WriteTransaction::persistent_savepoint$')
     ir = us.calls_to('ord::index::reorg::Reorg::is_savepoint_required')
     ctx.ob('R14.5', us.n, 'a savepoint is created exactly when is_savepoint_required answers true', len(sp) == 1 and len(ir) == 1 and any(g.endswith('.v:Continue.0==True') and 'is_savepoint_required' in g for g in guard_strings(us, sp[0].bb)), '', where(us, us.line))
+
+
+# sensitivity pack (thorough tier): each seeded edit must be reported by the named rule instance
+MUTANTS = [{'name': 'seeded-C14-a', 'patch': 'C14-a/patch.diff', 'expect': ('R14.5', 'update_index', 'consults Reorg::is_savepoint_required')}]
